@@ -143,8 +143,12 @@ def load_prop(pid):
 
 def run_one(mod, case, timeout_s=None):
     """run one case under the watchdog; returns the Result dict (harness errors propagate)"""
+    import contextlib
+    import io
+
     t = timeout_s or getattr(mod, "RUN_TIMEOUT_S", 120)
-    with alarm(t, f"{mod.ID} run"):
+    # graphiq prints debug output in places (e.g. the mixed-stabilizer ClassicalCNOT branch): keep our stdout clean
+    with alarm(t, f"{mod.ID} run"), contextlib.redirect_stdout(io.StringIO()):
         return mod.run_case(case)
 
 
